@@ -620,6 +620,30 @@ def _loops(ts, lo, hi):
     return out
 
 
+def _block_end_pos(ts, tb, te):
+    """offset at which a statement can be appended to the block ts[tb]..ts[te]: before the closing brace,
+    or -- when the block ends in a tail expression -- before that expression"""
+    last_stmt_end = tb
+    depth = 0
+    i = tb + 1
+    while i < te:
+        t = ts[i]
+        if t.kind == "punct" and t.text in _OPEN:
+            j = match_close(ts, i)
+            # a `{..}` block at statement level ends a statement when not followed by an operator / method call
+            if t.text == "{" and depth == 0 and j + 1 <= te and ts[j + 1].text not in (".", "?", ";", ",", "else", "as"):
+                last_stmt_end = j
+            i = j + 1
+            continue
+        if t.text == ";" and depth == 0:
+            last_stmt_end = i
+        i += 1
+    if last_stmt_end == te - 1 or ts[te - 1].text in (";",):
+        return ts[te].start
+    # there are tokens after the last statement end: a tail expression
+    return ts[last_stmt_end].end
+
+
 def annotate(text, annots):
     """returns (annotated_text, inserted_spans) ; spans are (start, end, kind) in the new text"""
     ts = lex(text)
@@ -729,13 +753,15 @@ def annotate(text, annots):
                     raise VxError("lost anchor: if ordinal %d, function has %d ifs" % (k, len(ifs)))
                 tb = next_body_brace(ts, ifs[k] + 1, e)
                 te = match_close(ts, tb)
-                if a.get("branch", 0) == 0:
-                    ins.append((ts[te].start, "\n" + a["text"].rstrip() + "\n", "ghost", order))
-                else:
+                if a.get("branch", 0) != 0:
                     if ts[te + 1].text != "else" or ts[te + 2].text != "{":
                         raise VxError("lost anchor: if %d has no plain else block" % k)
-                    ee = match_close(ts, te + 2)
-                    ins.append((ts[ee].start, "\n" + a["text"].rstrip() + "\n", "ghost", order))
+                    tb = te + 2
+                    te = match_close(ts, tb)
+                if a.get("pos", "end") == "start":
+                    ins.append((ts[tb].end, "\n" + a["text"].rstrip() + "\n", "ghost", order))
+                else:
+                    ins.append((_block_end_pos(ts, tb, te), "\n" + a["text"].rstrip() + "\n", "ghost", order))
             else:
                 loops = _loops(ts, b + 1, e)
                 k = a.get("ordinal", 0)
